@@ -84,13 +84,13 @@ ValueKinds(k) ==
                           "mixed_array", "real_for_int", "int_for_bool",
                           "int_for_string", "char16_long", "real_overflow",
                           "conflicting_flavors", "huge_array_size",
-                          "bool_for_int"}
+                          "bool_for_int", "huge_digits"}
     [] k = "class"    -> {"int_overflow", "huge_int", "neg_unsigned",
                           "str_for_int", "bad_datetime", "int_for_datetime",
                           "array_for_scalar", "scalar_for_array",
                           "mixed_array", "real_for_int", "int_for_bool",
                           "int_for_string", "char16_long", "real_overflow",
-                          "huge_array_size", "bool_for_int",
+                          "huge_array_size", "bool_for_int", "huge_digits",
                           "qual_str_for_int", "qual_int_overflow",
                           "qual_array_for_scalar", "qual_conflicting_flavors",
                           "dup_property", "ref_default_int",
@@ -100,7 +100,8 @@ ValueKinds(k) ==
                           "array_for_scalar", "scalar_for_array",
                           "mixed_array", "real_for_int", "int_for_bool",
                           "int_for_string", "char16_long", "real_overflow",
-                          "bool_for_int", "int_for_ref", "str_for_ref",
+                          "bool_for_int", "huge_digits", "int_for_ref",
+                          "str_for_ref",
                           "undefined_alias", "dup_property", "emb_bad_syntax",
                           "emb_class", "emb_empty", "emb_unknown_class"}
     [] k = "namespace" -> {"nomatch_colon", "empty", "space", "withhost",
